@@ -13,6 +13,8 @@ def declare(reg):
     })
     # ghost view of the sqlite file: g_uid_vv is the *committed* value of user_server.uid_vv (as stored text)
     reg.classdef("Database", {"g_uid_vv": "str"})
+    reg.classdef("Queue", {"g_items": "list[ref:IMAPClientCommand]"})
+    reg.classdef("Event", {"g_set": "bool"})
     reg.classdef("PWUser", {"username": "str", "pw_hash": "str", "maildir": "opaque:Path"}, path="asimap/auth.py")
     reg.classdef(
         "PreAuthenticated",
@@ -77,7 +79,7 @@ def declare(reg):
             "completed": "bool",
             "silent": "bool",
             "tag": "str",
-            "g_ready": "bool",
+            "ready": "ref:Event",
             "timeout_cm": "opt[opaque:Timeout]",
             "user_name": "str",
             "password": "str",
@@ -109,6 +111,17 @@ def declare(reg):
             "folder_ratio_pack_limit": "float",
             "server": "ref:IMAPUserServer",
             "mailbox": "ref:MH",
+            "id": "opt[int]",
+            "task_queue": "ref:Queue",
+            "mgmt_task": "opaque:Task",
+            # ghost: the committed row of this mailbox in sqlite (A-DB), decoded
+            "g_db_exists": "bool",
+            "g_db_uid_vv": "int",
+            "g_db_next_uid": "int",
+            "g_db_uids": "list[int]",
+            "g_db_msg_keys": "list[int]",
+            "g_db_num_msgs": "int",
+            "g_db_subscribed": "bool",
         },
         invariant={
             # DESIGN 6.2 Inv.1-4 (memory part)
